@@ -13,7 +13,8 @@ def build(ctx):
     ctx.log("translate", out)
     if not ok:
         ctx.diag.append("translator failed: " + out[-300:])
-    C.prove(ctx, ["Props/C16.v"], ["Oblig/C16Obl.v", "Proto/BufIOFacts.v"])
+    C.prove(ctx, ["Props/C16.v", "Props/C16Seq.v"],
+            ["Oblig/C16Obl.v", "Proto/BufIOFacts.v", "Oblig/C16SeqObl.v", "Proto/BufIOSeqFacts.v", "Proto/BufIOSeqInst.v"])
     ok, out = C.build_harness()
     ctx.log("go build", out)
     if not ok:
@@ -23,6 +24,10 @@ def build(ctx):
     ctx.log("ocaml", out[-3000:])
     if not ok:
         ctx.diag.append("extracted model does not build: " + out[-600:])
+    ok, out = C.build_ocaml("c16seq")
+    ctx.log("ocaml seq", out[-3000:])
+    if not ok:
+        ctx.diag.append("extracted per-site / response-sequence model does not build: " + out[-600:])
     return True
 
 
@@ -44,6 +49,7 @@ def oracle(ctx, level, sub="oracle"):
 def search(ctx, factor):
     before = len(ctx.fails)
     oracle(ctx, 2 if ctx.tier == "thorough" else 1, "search")
+    seq(ctx, 2 if ctx.tier == "thorough" else 1, "seqsearch", corr=False)
     found = ctx.fails[before:]
     del ctx.fails[before:]
     return found
@@ -81,18 +87,68 @@ def correspondence(ctx):
                 os.path.join(d, "impl.txt"), os.path.join(d, "cases.txt"))
 
 
+def run_drivers(ctx, drv, d, label):
+    """Run the extracted model on every shard of d in parallel, concatenate, compare."""
+    shards = sorted(glob.glob(os.path.join(d, "cases-*.txt")))
+    procs = []
+    for p in shards:
+        o = open(p.replace("cases-", "model-"), "w")
+        procs.append((subprocess.Popen([drv, p], stdout=o, stderr=subprocess.PIPE), o, p))
+    for pr, o, p in procs:
+        try:
+            _, err = pr.communicate(timeout=3000)
+        except subprocess.TimeoutExpired:
+            pr.kill()
+            err = b"timeout"
+        o.close()
+        if pr.returncode != 0:
+            ctx.diag.append("extracted model crashed on %s: %s" % (os.path.basename(p), (err or b"")[-300:].decode("utf-8", "replace")))
+    for kind in ("cases", "impl", "model"):
+        with open(os.path.join(d, kind + ".txt"), "w") as fh:
+            for p in shards:
+                fh.write(open(p.replace("cases-", kind + "-")).read())
+    ctx.compare(label, os.path.join(d, "model.txt"), os.path.join(d, "impl.txt"), os.path.join(d, "cases.txt"))
+
+
+def seq(ctx, level, sub="seq", corr=True):
+    """Phase 4: per-site model on the fault-at-offset sink, scripted sinks and sources.  One pass of
+    the harness writes the correspondence cases with the implementation's observations and judges
+    the property on each of them (oracle.jsonl)."""
+    d = os.path.join(ctx.rundir, sub)
+    os.makedirs(d, exist_ok=True)
+    rc, out = C.sh([os.path.join(C.BIN, "c16"), "seq", "-out", d, "-level", str(level), "-shards", "16",
+                    "-corpus", os.path.join(C.VERIF, "corpus", "C16")], timeout=3000)
+    ctx.log(sub, out[-1000:])
+    if rc != 0:
+        ctx.diag.append("seq pass crashed rc=%d: %s" % (rc, out[-300:]))
+        return None
+    before = len(ctx.fails)
+    summ = ctx.read_jsonl(os.path.join(d, "oracle.jsonl"))
+    for f in ctx.fails[before:]:
+        f["input"] = f.get("case")
+    if corr:
+        drv = os.path.join(C.BUILD, "ocaml", "c16seq", "driver")
+        if not os.path.exists(drv):
+            ctx.diag.append("per-site correspondence could not run: no driver")
+        else:
+            run_drivers(ctx, drv, d, "per-site Writer.Write+Flush under offset faults and scripted sinks / Reader.Read under scripted sources")
+    return summ
+
+
 def run(ctx):
     ctx.search = search
     ctx.trusted += ["WriterIO analysis of the translator (statement shapes around every call through the Writer receiver; shapes of the error handling in NewReaderWithContentType / Read / ReadFile)",
                     "model definitions of bufio.Writer (Flush, WriteString, sticky error), io.ReadFull, charset.NewReader's error cases and bufio.Scanner's error reporting, transcribed from the Go 1.23 / x/net sources (contract, exercised by the correspondence run)"]
     ctx.assumptions += ["bufio.Writer, io.ReadFull, io.MultiReader, transform.Reader and bufio.Scanner behave as transcribed in coq/Proto/BufIO.v (exercised, not proved)",
-                        "the failing io.Writer / io.Reader keeps failing or recovers as described by its fault record; a reader's error is sticky",
+                        "phase 1 model: the failing io.Writer / io.Reader keeps failing or recovers as described by its fault record and a reader's error is sticky; phase 4 model (C16Seq): the sink / source answers with an arbitrary sequence of responses",
+                        "the decoding stage between source and scan loop is Framing.chars (UTF-8 / ASCII; the windows-1252 path for non-UTF-8 input is not modelled): it only matters for the maxLines count",
                         "io.ErrUnexpectedEOF raised by the underlying reader inside charset's 1024-byte preview is indistinguishable from a short input (known finding)"]
     if not build(ctx):
         return
     correspondence(ctx)
     summ = oracle(ctx, LEVEL.get(ctx.tier, 0))
     ctx.add_summary(summ, "fault-injection oracle")
+    ctx.add_summary(seq(ctx, LEVEL.get(ctx.tier, 0)), "scripted sinks and sources")
     if summ:
         # every offset of every sampled file is enumerated; the set of files is a sample
         ctx.cov["exhaustive_offsets_per_sampled_file"] = bool(summ.get("exhaustive_offsets"))
